@@ -870,8 +870,9 @@ class GeneralThermodynamics:
         cond.update({v.MU(e): result.chemical_potentials[i] for i,e in enumerate(non_va_elements)})
 
         # If we do not have a precipitate composition set, then find one by sampling
+        sampled_dg = None
         if self._compset_cache_df.get(precPhase, None) is None:
-            dg, prec_cs = self._getPrecCompositionSetSamplingDF(x, T, result.chemical_potentials, precPhase, local_phase_sampling_conditions)
+            sampled_dg, prec_cs = self._getPrecCompositionSetSamplingDF(x, T, result.chemical_potentials, precPhase, local_phase_sampling_conditions)
             self._compset_cache_df[precPhase] = [prec_cs]
 
         #Solving for local equilibrium on precipitate
@@ -893,8 +894,10 @@ class GeneralThermodynamics:
         #This can occur in order/disordered models where the miscibility gap is small enough that the parallel tangent can only be found at the matrix composition
         #In this case, switch to sampling for the driving force
         #This still seems to be an improvement over approximate and curvature methods since this occurs after the driving force becomes negative
+        #The same is done if the local solution lies below the sample it was started from (the parallel tangent maximizes the driving force,
+        #   so the solver has left the basin of the sampled maximum and landed on another local solution)
         mat_comps = np.array(self._matrix_cs[0].X, dtype=np.float64)
-        if np.allclose(xb, mat_comps, 1e-6):
+        if np.allclose(xb, mat_comps, 1e-6) or (sampled_dg is not None and dg < sampled_dg):
             self._compset_cache_df[precPhase] = None
             return self._getDrivingForceSampling(x, T, precPhase, removeCache=removeCache, local_phase_sampling_conditions=local_phase_sampling_conditions)
 
